@@ -254,7 +254,28 @@ func (tm *TypeMap) FieldArray(structT types.Type, st *types.Struct, i int) (name
 	return fmt.Sprintf("H.%s.%s", sn[2:], sanitize(st.Field(i).Name())), valSort
 }
 
-func (tm *TypeMap) ElemArray(elemSort string) string { return "E." + sortName(elemSort) }
-func (tm *TypeMap) CellArray(sort string) string     { return "C." + sortName(sort) }
+// Element and cell arrays are keyed by Go type (type-based alias analysis): key = "<sort>#<type name>".
+func (tm *TypeMap) ElemArray(key string) string { return "E." + keyName(key) }
+func (tm *TypeMap) CellArray(key string) string { return "C." + keyName(key) }
+
+func keyName(key string) string {
+	if i := strings.Index(key, "#"); i >= 0 {
+		return key[i+1:]
+	}
+	return sortName(key)
+}
+
+// ksort extracts the SMT sort from an array key.
+func ksort(key string) string {
+	if i := strings.Index(key, "#"); i >= 0 {
+		return key[:i]
+	}
+	return key
+}
+
+// Key returns the array key of Go type t.
+func (tm *TypeMap) Key(t types.Type) string {
+	return tm.Sort(t) + "#" + sanitize(types.TypeString(types.Unalias(t), nil))
+}
 func (tm *TypeMap) MapHas(k, v string) string        { return "MH." + sortName(k) + "." + sortName(v) }
 func (tm *TypeMap) MapVal(k, v string) string        { return "MV." + sortName(k) + "." + sortName(v) }
